@@ -22,7 +22,7 @@ from ..cfg import CFG, exprs_in_node
 from ..index import AnchorError, FuncNode
 from ..selftest import Twin
 from .c24 import Cfg, Harness, StoreModel, _guard
-from .c28 import FnRef, ModelObject, SqlUnsupported, XInterp, model_unsupported, parse_sql, walk_sql
+from .c28 import IN_BLOCKS_OLD, IN_TABLE_ROWS, FnRef, ModelObject, SqlUnsupported, XInterp, in_blocks_table_driven, model_unsupported, parse_sql, walk_sql
 
 EXPLANATION = (
     "R1 sequence allocation: (a) memory `append_event`: on the CFG no suspension point (await / async with / async for / yield) lies between the first "
@@ -756,6 +756,12 @@ _PAPI = "packages/llama-agents-server/src/llama_agents/server/_api.py"
 _PENV = "packages/llama-agents-client/src/llama_agents/client/protocol/serializable_events.py"
 
 TWINS: list[Twin] = [
+    # ---- getattr() / module-level tables in the interpreted store code
+    Twin("benign: sqlite handler filters driven by a module-level table read with getattr", _PS, IN_BLOCKS_OLD, in_blocks_table_driven(), None),
+    Twin("benign: sqlite subscription cursor read with getattr", _PS, "                yield event\n                cursor = event.sequence\n", "                yield event\n                cursor = getattr(event, \"sequence\")\n", None),
+    Twin("sqlite: subscription cursor read with getattr from the wrong field", _PS, "                yield event\n                cursor = event.sequence\n", "                yield event\n                cursor = getattr(event, \"sequence\", cursor) - 1\n", "C16.R3"),
+    Twin("sqlite table-driven filters: handler ids matched against the run_id column (the stream's handler is never found)", _PS, IN_BLOCKS_OLD,
+         in_blocks_table_driven(IN_TABLE_ROWS.replace('("handler_id", "handler_id_in")', '("run_id", "handler_id_in")')), "C16.R5"),
     # ---- R1 breaking
     Twin("memory: suspension between reading the last sequence and appending", _PM, "        existing.append(stored)\n        condition = self._conditions.get(run_id)", "        await asyncio.sleep(0)\n        existing.append(stored)\n        condition = self._conditions.get(run_id)", "C16.R1"),
     Twin("memory: sequence from the length plus one", _PM, "next_seq = (existing[-1].sequence + 1) if existing else 0\n        stored = StoredEvent(", "next_seq = len(existing) + 1\n        stored = StoredEvent(", "C16.R1"),
